@@ -17,7 +17,7 @@
    model records next to every float argument is its value.  Fuel: only newIntSet is recursive (two levels);
    the statements that reach it hold for every fuel >= 2. *)
 From QF Require Import Base.Prelude Gen.GenFilterClause Gen.GenFilterDispatch.
-From QF Require Import Model.Frame Model.Filter Model.FilterSpec Proofs.FilterProofs Proofs.FilterTypedLeaf.
+From QF Require Import Model.Frame Model.Filter Model.FilterSpec Proofs.FilterProofs Proofs.FilterTypedLeaf Proofs.FilterTypedFrame.
 From QF Require Import Proofs.GenFilterClauseProofs Proofs.GenFilterDispatchProofs.
 Local Open Scope Z_scope.
 
@@ -104,8 +104,8 @@ Print Assumptions T1_filterdisp_string_Filter.
 
 (* ------------------------------------------------------------------ the interface and QFrame.filter *)
 
-(* x.Filter(..) through column.Column.  col_ok c: c is not an enum column — the enum Filter is translated
-   (gd_e_Column_Filter) but its equality with the model is NOT proved yet (see the examples at the end) *)
+(* x.Filter(..) through column.Column.  col_ok c: c is not an enum column (first version; with enum columns:
+   T1_filterdisp_Column_Filter_all below) *)
 Theorem T1_filterdisp_Column_Filter f2i mt c fuel index (cmp : fcmp) (a : rarg) b :
   col_ok c -> (2 <= fuel)%nat -> rarg_ok f2i a ->
   g_Column_Filter f2i mt fuel (col_go c) index (cmp_go cmp) (rarg_go a) b = res_go b (col_filter mt c index cmp a b).
@@ -175,7 +175,7 @@ Theorem T1_filterdisp_C02_leaf_ok f2i mt fuel f (l : leaf) (s : nat -> bool) (i 
 Proof. exact (g_QFrame_filter_leaf f2i mt fuel f l s i p0). Qed.
 Print Assumptions T1_filterdisp_C02_leaf_ok.
 
-(* ------------------------------------------------------------------ ecolumn: translated, compared on examples only *)
+(* ------------------------------------------------------------------ ecolumn: examples (the theorems follow) *)
 
 Definition ex_enum : coldata := ECol [0; 1; 255; 1]%N [[97%N]; [98%N]] true.
 Example T1_filterdisp_enum_examples :
@@ -194,3 +194,134 @@ Example T1_filterdisp_enum_examples :
   /\ run (CmpName (bs 1 0x3d)) (RCol ex_enum) b0 = model (CmpName (bs 1 0x3d)) (RCol ex_enum) b0
   /\ run (CmpName (bs 1 0x3d)) (RCol (ECol [0]%N [[97%N]] true)) b0 = Ok (Some tt, b0).    (* enums of different types *)
 Proof. cbv zeta. repeat split; vm_compute; reflexivity. Qed.
+
+(* ------------------------------------------------------------------ ecolumn *)
+
+Theorem T1_filterdisp_equalTypes d vs st d2 vs2 st2 :
+  gd_e_equalTypes d vs st d2 vs2 st2 = Ok (equal_types vs (length d) vs2 (length d2)).
+Proof. exact (gd_e_equalTypes_eq d vs st d2 vs2 st2). Qed.
+Print Assumptions T1_filterdisp_equalTypes.
+
+(* Column.filterBuiltIn of ecolumn: the search for the constant among the values and the call with enumVal(i),
+   the undeclared constant (error in strict mode, no row / every row for != otherwise), like / ilike / in through
+   the bitset builders (boundary entries) and filterWithBitset, equalTypes for a column argument.
+   Premise: the value list fits the uint8 rank (enumVal(i) wraps at 256; the factory stops at 255) *)
+Theorem T1_filterdisp_enum_filterBuiltIn mt d vs st index cmp (a : rarg) b : (length vs <= 256)%nat ->
+  g_e_filterBuiltIn mt d vs st index cmp (rarg_go a) b = res_go b (e_filter_builtin mt d vs st index cmp a b).
+Proof. exact (gd_e_builtin_eq mt d vs st index cmp a b). Qed.
+Print Assumptions T1_filterdisp_enum_filterBuiltIn.
+
+Theorem T1_filterdisp_enum_Filter mt d vs st index (cmp : fcmp) (a : rarg) b : (length vs <= 256)%nat ->
+  gd_e_Column_Filter m_new_error m_propagate (fun l => l) m_e0 m_e1 m_e2 (m_eLike mt) m_eIn
+    (fun d vs st => m_c1 (ECol d vs st)) (fun d vs st => m_c2 (ECol d vs st) other_e) m_eBitset
+    d vs st index (cmp_go cmp) (rarg_go a) b
+  = res_go b (col_filter mt (ECol d vs st) index cmp a b).
+Proof. exact (gd_e_Filter_eq mt d vs st index cmp a b). Qed.
+Print Assumptions T1_filterdisp_enum_Filter.
+Example T1_filterdisp_enum_Filter_example : (length [[97%N]; [98%N]] <= 256)%nat.
+Proof. cbn. lia. Qed.
+
+(* the interface dispatch for all five column types *)
+Theorem T1_filterdisp_Column_Filter_all f2i mt c fuel index (cmp : fcmp) (a : rarg) b :
+  col_okE c -> (2 <= fuel)%nat -> rarg_ok f2i a ->
+  g_Column_Filter f2i mt fuel (col_go c) index (cmp_go cmp) (rarg_go a) b = res_go b (col_filter mt c index cmp a b).
+Proof. exact (g_Column_Filter_eqE f2i mt c fuel index cmp a b). Qed.
+Print Assumptions T1_filterdisp_Column_Filter_all.
+Example T1_filterdisp_Column_Filter_all_example :
+  col_okE ex_enum /\ (2 <= 2)%nat /\ rarg_ok (fun _ => 0) (RConst (AStr [98%N])).
+Proof. repeat split; cbn; lia. Qed.
+
+(* QFrame.filter = filter_leaves for every frame whose enum columns have at most 256 values *)
+Theorem T1_filterdisp_leaves_all f2i mt fuel f ls : (2 <= fuel)%nat -> frame_cols_okE f ->
+  Forall (fun l => arg_ok f2i (larg l)) ls ->
+  g_QFrame_filter f2i mt fuel f (map leaf_go ls) = filter_leaves mt f ls.
+Proof. exact (g_QFrame_filter_eqE f2i mt fuel f ls). Qed.
+Print Assumptions T1_filterdisp_leaves_all.
+
+(* the premise follows from well-formedness *)
+Theorem T1_filterdisp_wf_cols f : wf_frame f = true -> frame_cols_okE f.
+Proof. exact (wf_frame_cols_okE f). Qed.
+Print Assumptions T1_filterdisp_wf_cols.
+
+Definition ex_eframe : frame := mkFrame [([67%N], ex_enum); ([65%N], ICol [3; -1; 7; 7])] [3%nat; 0%nat; 1%nat] false.
+Example T1_filterdisp_leaves_all_example :
+  let ls := [mkLeaf [67%N] (CmpName (bs 1 0x3c)) (AStr [98%N]) true; mkLeaf [65%N] (CmpName (bs 1 0x3d)) (AInt 3) false] in
+  wf_frame ex_eframe = true /\ (2 <= 2)%nat /\ Forall (fun l => arg_ok (fun _ => 0) (larg l)) ls
+  /\ g_QFrame_filter (fun _ => 0) [] 2 ex_eframe (map leaf_go ls) = Ok (with_ix ex_eframe [3%nat; 0%nat; 1%nat])
+  /\ filter_leaves [] ex_eframe ls = Ok (with_ix ex_eframe [3%nat; 0%nat; 1%nat]).
+Proof. cbv zeta. split; [reflexivity|]. split; [lia|]. split; [repeat constructor|]. split; vm_compute; reflexivity. Qed.
+
+(* ------------------------------------------------------------------ one statement from the clause tree to the kernel call *)
+
+(* filtering never touches the columns (the invariant of the composition) *)
+Theorem T1_filterdisp_columns_unchanged mt c g r : clause_filter mt c g = Ok r -> cols r = cols g.
+Proof. exact (clause_filter_cols mt c g r). Qed.
+Print Assumptions T1_filterdisp_columns_unchanged.
+Example T1_filterdisp_columns_unchanged_example :
+  clause_filter [] (CNot (CLeaf (mkLeaf [65%N] (CmpName (bs 1 0x3d)) (AInt 3) false))) ex_eframe = Ok (with_ix ex_eframe [3%nat; 1%nat]).
+Proof. vm_compute. reflexivity. Qed.
+
+(* extensionality of the generated clause dispatcher in its column level qf.filter: a column level q1 that agrees
+   with filter_leaves on every frame with the columns of f0 and on leaf lists satisfying Q (Q stable under
+   f.Inverse = b) gives the same c.filter(qf) on every such frame, for every clause whose leaves satisfy Q *)
+Theorem T1_filterdisp_clause_ext mt (q1 : frame -> list leaf -> outcome frame) (f0 : frame) (Q : leaf -> Prop) :
+  (forall l b, Q l -> Q (m_setInverse l b)) ->
+  (forall g ls, cols g = cols f0 -> Forall Q ls -> q1 g ls = filter_leaves mt g ls) ->
+  forall c, Forall Q (clause_leaves c) -> forall g, cols g = cols f0 ->
+  gc_FilterClause_filter Nat.eqb m_Err ix m_withErr with_ix q1 linv m_setInverse (embed c) g
+  = gc_FilterClause_filter Nat.eqb m_Err ix m_withErr with_ix (filter_leaves mt) linv m_setInverse (embed c) g.
+Proof. exact (gc_filter_ext mt q1 f0 Q). Qed.
+Print Assumptions T1_filterdisp_clause_ext.
+
+(* THE COMPOSITION: the generated QFrame.Filter (GenFilterClause.v) over the generated QFrame.filter
+   (GenFilterDispatch.v) = the model's frame_filter, for every frame and every clause tree.  Premises: fuel for
+   newIntSet, at most 256 values per enum column, the recorded int(x) of the float arguments of the leaves *)
+Theorem T1_filterdisp_QFrame_Filter f2i mt fuel f (c : clause) : (2 <= fuel)%nat -> frame_cols_okE f ->
+  Forall (fun l => arg_ok f2i (larg l)) (clause_leaves c) ->
+  g_QFrame_Filter f2i mt fuel f (embed c) = frame_filter mt f c.
+Proof. exact (g_QFrame_Filter_eq' f2i mt fuel f c). Qed.
+Print Assumptions T1_filterdisp_QFrame_Filter.
+
+Definition ex_eclause : clause :=
+  COr [CLeaf (mkLeaf [67%N] (CmpName (bs 1 0x3d)) (AStr [97%N]) false); CLeaf (mkLeaf [65%N] (CmpName (bs 1 0x3e)) (AFloat 0x4014000000000000 5) false);
+       CNot (CAnd [CLeaf (mkLeaf [65%N] (CmpName (bs 1 0x3c)) (AInt 5) false); CNull])].
+Example T1_filterdisp_QFrame_Filter_example :
+  (2 <= 2)%nat /\ Forall (fun l => arg_ok (fun _ => 5) (larg l)) (clause_leaves ex_eclause)
+  /\ g_QFrame_Filter (fun _ => 5) [] 2 ex_eframe (embed ex_eclause) = Ok (with_ix ex_eframe [3%nat; 0%nat])
+  /\ frame_filter [] ex_eframe ex_eclause = Ok (with_ix ex_eframe [3%nat; 0%nat]).
+Proof. split; [lia|]. split; [repeat constructor|]. split; vm_compute; reflexivity. Qed.
+
+(* C02_filter (the frame theorem of C02) on the translated text *)
+Definition T1_filterdisp_C02_filter_statement : Prop := g_C02_statement.
+Theorem T1_filterdisp_C02_filter : T1_filterdisp_C02_filter_statement.
+Proof. exact g_C02. Qed.
+Print Assumptions T1_filterdisp_C02_filter.
+Example T1_filterdisp_C02_filter_example :
+  c02_premises_b [] ex_eframe ex_eclause = true /\ ix ex_eframe <> []
+  /\ filter_spec [] ex_eframe ex_eclause = VRows [3%nat; 0%nat].
+Proof. repeat split; try discriminate; vm_compute; reflexivity. Qed.
+
+(* C17_filter_undeclared and C17_frame_filter_undeclared on the translated text *)
+Theorem T1_filterdisp_C17_filter_undeclared mt d vals strict cmp op s index b :
+  (length vals <= 256)%nat -> cop_of cmp = Some op -> ~ In s vals ->
+  g_e_filterBuiltIn mt d vals strict index cmp (gd_any_string s) b
+  = if strict then Ok (Some tt, b)
+    else Ok (None, if match op with ONe => true | _ => false end then map (fun _ => true) b else b).
+Proof. exact (g_e_filter_undeclared mt d vals strict cmp op s index b). Qed.
+Print Assumptions T1_filterdisp_C17_filter_undeclared.
+
+Theorem T1_filterdisp_C17_frame_filter_undeclared f2i mt fuel (f : frame) col d vals cmp op s :
+  (2 <= fuel)%nat -> frame_cols_okE f ->
+  ferr f = false -> lookup_col f col = Some (ECol d vals true) -> cop_of cmp = Some op -> ~ In s vals ->
+  g_QFrame_Filter f2i mt fuel f (embed (CLeaf (mkLeaf col (CmpName cmp) (AStr s) false))) = Ok (with_err f).
+Proof. exact (g_frame_filter_undeclared f2i mt fuel f col d vals cmp op s). Qed.
+Print Assumptions T1_filterdisp_C17_frame_filter_undeclared.
+Example T1_filterdisp_C17_undeclared_example :
+  (length [[97%N]; [98%N]] <= 256)%nat /\ cop_of (bs 1 0x3d) = Some OEq /\ ~ In [99%N] [[97%N]; [98%N]]
+  /\ ferr ex_eframe = false /\ lookup_col ex_eframe [67%N] = Some ex_enum
+  /\ g_QFrame_Filter (fun _ => 0) [] 2 ex_eframe (embed (CLeaf (mkLeaf [67%N] (CmpName (bs 1 0x3d)) (AStr [99%N]) false)))
+     = Ok (with_err ex_eframe).
+Proof.
+  split; [cbn; lia|]. split; [reflexivity|]. split; [intros [H|[H|[]]]; discriminate|].
+  split; [reflexivity|]. split; vm_compute; reflexivity.
+Qed.
